@@ -434,34 +434,8 @@ def fortran_only(tok):
 
 
 def known_class(base_text, text, base, new, msg):
-    '''Narrow class of the remaining Fortran-spelling defect: the rewrite
-    differs from the original in exactly one blank-separated token, which is
-    the importance of a cell card (imp:n=1 -> imp:n=1.0+0) written in a
-    spelling only Fortran reads, the original converts and the rewrite dies
-    with float()'s ValueError on that very number.'''
-    if base[0] != 'ok' or new != ('err', 'ValueError'):
-        return None
-    a, b = base_text.split(), text.split()
-    if len(a) != len(b):
-        return None
-    diff = [(x, y) for x, y in zip(a, b) if x != y]
-    if len(diff) != 1:
-        return None
-    m_old = re.fullmatch(r'(imp:[a-z,]+=)(\S+)', diff[0][0], flags=re.I)
-    m_new = re.fullmatch(r'(imp:[a-z,]+=)(\S+)', diff[0][1], flags=re.I)
-    if not m_old or not m_new or m_old.group(1) != m_new.group(1):
-        return None
-    old, tok = m_old.group(2), m_new.group(2)
-    if not fortran_only(tok) or impl.mcnp_float(old) != impl.mcnp_float(tok):
-        return None
-    if 'could not convert string to float' not in msg \
-            or repr(tok).lower() not in msg.lower():
-        return None
-    # the token stands on a cell card
-    from MIP.mip.blocks import get_block_positions
-    dres = get_block_positions(text)
-    if diff[0][1] in text[slice(*dres['c'][0])].split():
-        return 'fortran_spelling_cell_importance'
+    '''No open finding is left for C14 (the Fortran-spelling classes were
+    repaired in /repo ffaf98c and a161adb): every difference is a violation.'''
     return None
 
 
@@ -492,7 +466,7 @@ def compare(base_text, base, text, desc, numbers, res, args=()):
 def run_sweep(res, tier, rng):
     n_decks = 200 if tier == 'quick' else 2500
     n_rewrites = 6
-    n_ok = n_fail = n_known = 0
+    n_ok = n_fail = 0
     for k in range(n_decks):
         deck = D.gen_deck(rng)
         base_text = D.render(deck, None)
@@ -518,21 +492,8 @@ def run_sweep(res, tier, rng):
                     res, args)
         if k == 0:
             res.sample({'deck': base_text, 'rewrite': text})
-        # separate, labelled stream: ONE importance of a cell card of the
-        # canonical text in a Fortran-only spelling (known defect); nothing
-        # else is changed, so the class predicate stays narrow
-        if base[0] == 'ok' and k % 4 == 0:
-            text = D.render_one_fortran(deck, rng)
-            if text is not None:
-                n_known += 1
-                res.seen(text)
-                res.count('sweep:stream:fortran_cell_importance')
-                compare(base_text, base, text,
-                        {'used': ['number:fortran-cell-importance'],
-                         'stream': 'fortran_cell_importance'}, True, res, args)
-    res.obligation(f'sweep: {n_decks} decks x {n_rewrites} random layouts '
-                   f'(+ {n_known} single Fortran-only respellings of a cell-card '
-                   f'importance, labelled stream), {n_ok} converted, '
+    res.obligation(f'sweep: {n_decks} decks x {n_rewrites} random layouts, '
+                   f'{n_ok} converted, '
                    f'{n_fail} rejected (the rewrite must be rejected the same '
                    'way)', n_ok > n_fail, 'most generated decks must convert')
 
@@ -545,10 +506,10 @@ WITNESS_BASE = ('witness\n1 1 {rho} -1 imp:n={i}\n2 0 1 -2 fill=1 ({x} 0 0) imp:
                 '1 1 so {r}\n2 so 9.0\n3 so 1.0\n\ntr1 {t} 0 0\nm1 1001 2 8016 {f}\n')
 WITNESS_DEFAULT = dict(rho='-1.0', r='5.0', t='1.0', f='1.0', x='1.0', i='1')
 WITNESSES = [
-    # open: importance of a cell card
+    # repaired in /repo a161adb (to_float in parse_keywords)
     ('IMP:N=1.0+0 on a cell card', dict(i='1.0+0')),
     ('IMP:N=.1d1 on a cell card', dict(i='.1d1')),
-    # repaired in /repo ffaf98c (MIP.mip.datacard.to_float): must stay fine
+    # repaired in /repo ffaf98c (MIP.mip.datacard.to_float)
     ('SO 5.0+0', dict(r='5.0+0')),
     ('TR1 1.0+0 0 0', dict(t='1.0+0')),
     ('SO 5.0d0', dict(r='5.0d0')),
